@@ -11,6 +11,8 @@ PROP = "C10"
 
 
 def tower(d, kind="arr"):
+    if kind == "mixed":
+        return "std.foldl(function(a, i) if i %% 2 == 0 then [a] else {a: a}, std.range(1, %d), {})" % d
     if kind == "arr":
         return "std.foldl(function(a, i) [a], std.range(1, %d), [])" % d
     return "std.foldl(function(a, i) {a: a}, std.range(1, %d), {})" % d
@@ -55,6 +57,26 @@ SHAPES = {
                          lambda d: str(d), True),
     "default_arg_recursion": (lambda d: "local f(n, m=if n == 0 then 0 else 1 + f(n - 1)) = m; f(%d)" % d, lambda d: str(d), True),
 }
+
+# every deep consumer on every kind of tower (array / object / alternating)
+def _add_consumer_towers():
+    consumers = {"manifestJsonEx": "std.length(std.manifestJsonEx(%s, '')) > 0", "manifestJsonMinified": "std.length(std.manifestJsonMinified(%s)) > 0",
+                 "manifestPython": "std.length(std.manifestPython(%s)) > 0", "manifestPythonVars": "std.length(std.manifestPythonVars({v: %s})) > 0",
+                 "manifestYamlDoc": "std.length(std.manifestYamlDoc(%s)) > 0", "manifestYamlStream": "std.length(std.manifestYamlStream([%s])) > 0",
+                 "manifestTomlEx": "std.length(std.manifestTomlEx({t: %s}, '')) > 0", "manifestIni": "std.length(std.manifestIni({main: {k: std.toString(%s)}, sections: {}})) > 0",
+                 "toString": "std.length(std.toString(%s)) > 0", "concat": "std.length('' + %s) > 0", "format_s": "std.length('%%s' %% [%s]) > 0",
+                 "equals": "local t = %s; t == t", "assertEqual": "local t = %s; std.assertEqual(t, t)", "top_level": "%s",
+                 "manifestXmlJsonml": None}
+    for name, tmpl in consumers.items():
+        if tmpl is None:
+            continue
+        for kind in ("arr", "obj", "mixed"):
+            key = "tower:%s:%s" % (name, kind)
+            SHAPES[key] = ((lambda tmpl, kind: lambda d: tmpl % tower(d, kind))(tmpl, kind), (None if name == "top_level" else (lambda d: "true")), True)
+
+
+_add_consumer_towers()
+
 
 # thunk chains through inheritance layers and lazily built containers: level i reads level i-1 only when forced, so
 # forcing the top nests d evaluations; every way a layer / element can read its predecessor
@@ -607,7 +629,7 @@ def run(tier, seed):
         depths += rng.sample(range(41, 3000), 30)
     # the inheritance-layer and lazy-container chains cost O(d) per field lookup: fewer and smaller depths
     chain_depths = [2, 20, 41, 250, 501] if quick else [0, 1, 2, 3, 5, 8, 13, 20, 21, 40, 41, 100, 250, 499, 500, 501, 1000, 2000]
-    jobs = [(sh, d) for sh in SHAPES for d in (chain_depths if sh.startswith(("layers:", "lazy:")) else depths)]
+    jobs = [(sh, d) for sh in SHAPES for d in (chain_depths if sh.startswith(("layers:", "lazy:", "tower:")) else depths)]
     rng.shuffle(jobs)
     for a in common.pmap(shapes_shard, [(seed + i, jobs[i::32]) for i in range(32)]):
         total.merge(a)
@@ -639,7 +661,8 @@ def run(tier, seed):
             "tailstrict - only a tailstrict call in a genuine tail position may go uncharged; function, mutual, object method, self/super chains, array/object towers "
             "through manifestation, ==, <, toString, manifestJsonEx/Python/YamlDoc/TomlEx, prune, mergePatch, "
             "flattenDeepArray, deepJoin, thunk chains, lazy array chains, format, sort keys, comprehensions, asserts, "
-            "default args; thunk chains through inheritance layers - 13 ways a layer can read its predecessor (+: in every visibility / "
+            "default args; 14 deep consumers (every manifester, toString, string concatenation, %s, ==, assertEqual, top-level output) on "
+            "array, object and alternating towers; thunk chains through inheritance layers - 13 ways a layer can read its predecessor (+: in every visibility / "
             "computed / array / string / object form, super.f, super[e], in super, self, object local, assert) x foldl / foldr / "
             "object-extension construction - and through lazily built containers (comprehensions, map, mapWithIndex, mapWithKey, "
             f"composed closures, defaulted parameters)) x depths x a ladder of {len(S_LADDER)} frame limits (0..10^6): outcome in "
